@@ -20,8 +20,13 @@ PROP = dict(
           "must arrive intact and in order; what is delivered of the interrupted message must be a prefix of it). "
           "(out) bytes written by send() on a socketpair decoded by the reference codec: FIN, opcode, declared length, minimal length form, mask bit "
           "iff client role, payload after unmasking, nothing extra; EVERY length 1..300 and 65495..65576 x roles x text/binary, rapidcheck sequences "
-          "incl. ping/pong frames, 1-4 MiB in thorough. "
-          "(hs) raw TCP client: generated 16-byte keys, header names canonical / lower / upper case, through WebSocketServer and through "
+          "incl. ping/pong frames, 1-4 MiB in thorough; late-reader cases: 70000 B - 4 MiB messages sent while an ITIMER_REAL (1-3 ms, no-op handler, SA_RESTART) fires in the "
+          "sending thread and the reader starts 100-300 ms late, so that the kernel completes the blocking send() calls in pieces (8 cases quick / 168 thorough, payload blocks exact-size "
+          "under ASan in server role); the same for client->server messages of the loop part against a server that starts reading late. "
+          "(hs) raw TCP client: generated 16-byte keys; header names canonical / lower / upper / mixed case; Connection value one of `Upgrade`, `keep-alive, Upgrade`, "
+          "`Upgrade, keep-alive`, `Keep-Alive, Upgrade`, `TE, keep-alive, Upgrade`, `keep-alive, Upgrade, TE` (asserted) or an RFC-valid spelling the unchanged library "
+          "refuses too (`keep-alive,Upgrade`, lower/upper-case token, `Upgrade: WebSocket`: sent, outcome only counted); 0-7 extra headers (Origin, protocol, "
+          "extensions, User-Agent, ...); header order permuted; the 72 (path x Connection x Upgrade) combinations enumerated + generated ones; through WebSocketServer and through "
           "HttpServer::link: status 101 and Sec-WebSocket-Accept == Base64(SHA-1(key + GUID)) by the independent references of ref_codec.h, then one "
           "masked message echoed by the server and decoded by the reference. "
           "(hostile) grid role x 16 opcodes x FIN x RSV{0,7} x mask x 26 (form, declared length) pairs [0, 5, 125, 126, 65535, 65536, 2^31-1, 2^31, 2^31+5, "
@@ -40,6 +45,8 @@ PROP = dict(
                  "hang bound 60 s per blocking step (expected: micro- to milliseconds), libFuzzer -timeout=60; failures of the network parts are confirmed in fresh processes",
                  "loopback sessions: an end that waits sees the other end stuck inside receive() (entered, its socket drained, nothing being sent) and reports it after 5 s "
                  "of that unchanged state instead of after the 60 s bound (gap between a receive()'s last read and its return: microseconds)",
+                 "the interval timer is armed only inside those cases; all threads but the sending one block SIGALRM (the library's select() loops treat EINTR as an error); "
+                 "the send timeout of the sending socket is lifted meanwhile (a socket with SO_SNDTIMEO fails with EINTR instead of restarting)",
                  "declared lengths between 1 MiB and 2^31-1 that are not actually sent are not generated (allocation pressure is outside the property); "
                  "TCP_NODELAY/TCP_QUICKACK are set on the loopback connections for speed only",
                  "reads of uninitialised memory are visible only through their consequences (garbage lengths, ASan's 0xbe fill pattern echoed in a pong); MSan is unavailable"],
